@@ -57,8 +57,10 @@ def std_logpdf(f, z, df=None):
     if f == "Logistic":
         return -z - 2.0 * math.log1p(math.exp(-z)) if z > -700 else z
     if f == "StudentT":
-        return (math.lgamma((df + 1) / 2) - math.lgamma(df / 2) - 0.5 * math.log(df * math.pi)
-                - (df + 1) / 2 * math.log1p(z * z / df))
+        a = df / 2
+        # lgamma(a + 1/2) - lgamma(a): the difference of two huge numbers for large df; Stirling series there (error O(a^-5))
+        dlg = (0.5 * math.log(a) - 1 / (8 * a) + 1 / (192 * a**3)) if df > 1e6 else (math.lgamma(a + 0.5) - math.lgamma(a))
+        return dlg - 0.5 * math.log(df * math.pi) - (df + 1) / 2 * math.log1p(z * z / df)
     raise ValueError(f)
 
 
@@ -125,7 +127,10 @@ def check_case(rep, c):
         if not lp < -1e300:
             rep.violation({**key, "what": "value"}, f"{desc}.log_prob({x}) = {lp}; the textbook log-density underflows to -inf there", {"case": c})
         return
-    if not abs(lp - ref) <= 1e-10 * (1 + abs(ref)):
+    tol = 1e-10 * (1 + abs(ref))
+    if f == "StudentT":     # the textbook formula as usually evaluated differences two log-gammas of size ~ df log df: its own rounding
+        tol += 8 * 2.3e-16 * n * max(abs(math.lgamma(max(p) / 2)) for p in [ps[0]])
+    if not abs(lp - ref) <= tol:
         rep.violation({**key, "what": "value"}, f"{desc}.log_prob({x}) = {lp}; the textbook log-density summed over coordinates is {ref}", {"case": c})
 
 
